@@ -73,11 +73,15 @@ def o191(ctx):
     ctx.count(1, {"radius query": {k: tm.show(to_term(v)) for k, v in ev.kwargs.items()}, "radius": tm.show(to_term(rad)) if rad is not None else None})
     if rad is None or to_term(rad) != sym("dist_max"):
         ctx.finding(q, ev.node, "the candidate query must use max_distance as its radius", ev.node, m)
-    for kw in ("sort_results", "return_distance"):
+    # sort_results is NOT demanded: which admissible candidate becomes the successor is not part of the property (every link is tested against the
+    # window on its own).  Until /repo 86ccbaf nearest-first happened to hide most of defect 26 (tails renumbered in table row order); with the tail
+    # renumbered in chain order a tracer that takes another admissible candidate still yields a partition into chains with order numbers 1..k
+    # (retired seed C19-zb: 17 000 random lists, none violated) -- a rule demanding the sort would alarm on code where the property holds.
+    for kw in ("return_distance",):
         v = ev.kwargs.get(kw)
         ctx.count(1)
         if v is None or not (is_pyconst(v) and pyval(v) is True):
-            ctx.finding(q, ev.node, f"the radius query must run with {kw}=True (nearest admissible neighbour first, with its distance)", ev.node, m)
+            ctx.finding(q, ev.node, f"the radius query must run with {kw}=True (every candidate with its own distance)", ev.node, m)
     QR = ev
     ids_t, dist_t = to_term(r.ret.items[0]), to_term(r.ret.items[1])
 
@@ -188,6 +192,16 @@ def o192(ctx):
         ctx.count(1)
         if "geom4" not in w:
             ctx.finding(q, fn, f"{label}: the link distance must be recorded on the particle the chain is appended to", fn, m)
+        else:
+            # ... unconditionally: whatever the slot held before (the distance of a link that was cut, or of a head cut off earlier) is replaced
+            dst = [e for e in it.events if e.kind == "store" and e.fn == q and e.extra.get("frame") is traced and e.extra.get("names") == ["geom4"]]
+            extra_g = [g_ for e in dst for g_ in e.guards if not (g_.op == "call" and g_.args[0] == "in_loop") and (tm.has_sym(g_, "tr:geom4") or tm.has_sym(g_, "current_dist"))]
+            val_ok = dst and all(to_term(e.args[2]) == sym("current_dist") for e in dst)
+            ctx.count(1, {"path": label, "distance stores": len(dst), "conditions on the old value": [tm.show(g_)[:60] for g_ in extra_g]})
+            if extra_g or not val_ok:
+                ctx.finding(q, dst[0].node if dst else fn, f"{label}: the distance of the new link is written only under a condition on what the slot held "
+                            f"before ({tm.show(extra_g[0])[:80] if extra_g else 'another value is written'}): after a tail cut the slot still holds the distance "
+                            "of the link that was cut, and the new link keeps that stale distance", dst[0].node if dst else fn, m)
         if cut:
             # the tail that is cut off starts *after* the particle the new chain is appended to: order > that particle's order (strict)
             relabel = [e for e in it.events if e.kind == "store" and e.extra.get("frame") is traced and e.extra.get("mask") is not None
@@ -733,14 +747,160 @@ def o198(ctx):
                     "close on itself and its order numbers no longer run 1..k", body[0] if body else calls[1], m)
 
 
+def o199(ctx):
+    """a connection on both ends in which BOTH helpers cut a piece off an existing chain: the tail cut off by add_chain_suffix and the head cut
+    off by add_chain_prefix must end up under different object numbers (each piece is a chain of its own, numbered from 1)"""
+    src = lambda n: " ".join(ast.unparse(n).split())
+    # (1) add_chain_suffix, tail cut: the number the cut-off tail receives
+    qs = RB + "add_chain_suffix"
+    ms, fs = ctx.prog.func(qs)
+    it = Interp(ctx.prog, assume=assume_map({"chain_max_order != order_id": True, "previous_dist <= current_dist": False}))
+    chain, traced = opf("chain_df", "ch:"), opf("traced_df", "tr:")
+    it.run(qs, [chain, Obj("cryomotl.Motl", {"df": opf("mdf", "m:")}), traced, P("subtomo_pos"), P("current_dist")], {})
+    rel = [e for e in it.events if e.kind == "store" and e.fn == qs and e.extra.get("frame") is traced and e.extra.get("names") == ["object_id"]
+           and e.extra.get("mask") is not None]
+    if len(rel) != 1:
+        raise Unsupported("add_chain_suffix: relabelling of the cut-off tail not recognised", fs)
+    one = lambda t_: tm.subst(t_, {n: n.args[1] for n in tm.walk(t_) if n.op == "call" and n.args[0] == "elem" and n.args[1] == sym("ch:object_id")})
+    v_tail = one(to_term(rel[0].args[2]))
+    tail_is_own = v_tail == sym("ch:object_id")
+    # (2) add_chain_prefix, both ends + head cut: the number the cut-off head ends up with
+    qp = RB + "add_chain_prefix"
+    mp, fp = ctx.prog.func(qp)
+    it2 = Interp(ctx.prog, assume=assume_map({"class_max is None": False, "order_id != 1": True, "previous_dist <= current_dist": False}))
+    chain2, traced2 = opf("chain_df", "ch:"), opf("traced_df", "tr:")
+    it2.run(qp, [chain2, Obj("cryomotl.Motl", {"df": opf("mdf", "m:")}), traced2, P("subtomo_pos"), P("current_dist")],
+            {"class_max": Seq([P("cmax0"), P("cmax1")], "list")})
+    st2 = [e for e in it2.events if e.kind == "store" and e.fn == qp and e.extra.get("frame") is traced2 and e.extra.get("names") == ["object_id"]]
+    head_vals = [to_term(e.args[2]) for e in st2]
+    head_is_cmax1 = any(v_ == sym("cmax1") for v_ in head_vals) and any(tm.cval(v_) == -1 for v_ in head_vals)
+    # (3) trace_chains: what is handed over as class_max[1]
+    qt = RB + "trace_chains"
+    mt, ft = ctx.prog.func(qt)
+    ctx.touched(qs, qp, qt)
+    pre = [c for c in ast.walk(ft) if isinstance(c, ast.Call) and src(c.func).split(".")[-1] == "add_chain_prefix" and kwarg(c, "class_max") is not None]
+    if len(pre) != 1:
+        raise Unsupported("trace_chains: call of add_chain_prefix with class_max not recognised", ft)
+    defs = lambda name: [a for a in ast.walk(ft) if isinstance(a, ast.Assign) and any(isinstance(t, ast.Name) and t.id == name for t in a.targets)]
+    cm = kwarg(pre[0], "class_max")
+    tuples = [a.value for a in defs(cm.id) if isinstance(a.value, ast.Tuple) and len(a.value.elts) == 2] if isinstance(cm, ast.Name) else \
+        ([cm] if isinstance(cm, ast.Tuple) and len(cm.elts) == 2 else [])
+    if not tuples:
+        raise Unsupported("trace_chains: value of class_max not recognised", pre[0])
+    second = tuples[0].elts[1]
+    sdefs = [a.value for a in defs(second.id)] if isinstance(second, ast.Name) else [second]
+    # the counter that numbers new chains: assigned to the finished chain's object column, then incremented
+    counters = {a.value.id for a in ast.walk(ft) if isinstance(a, ast.Assign) and isinstance(a.value, ast.Name) and len(a.targets) == 1
+                and isinstance(a.targets[0], ast.Subscript) and "store_idx1" in src(a.targets[0])}
+    is_own = any(isinstance(v_, ast.BinOp) and isinstance(v_.op, ast.Sub) and isinstance(v_.left, ast.Name) and v_.left.id in counters
+                 and isinstance(v_.right, ast.Constant) and v_.right.value == 1 for v_ in sdefs)
+    ctx.count(3, {"number of a tail cut off by add_chain_suffix": tm.show(v_tail)[:60], "numbers written for a head cut off by add_chain_prefix (both ends)":
+                  [tm.show(v_)[:40] for v_ in head_vals], "class_max[1] in trace_chains": [src(v_)[:60] for v_ in sdefs]})
+    if not (tail_is_own or head_is_cmax1 or is_own):
+        return
+    # the repaired form: the name handed over as class_max[1] is rebound to a FRESH number (the counter itself, which is then advanced) when the
+    # traced table already holds the former number, i.e. when add_chain_suffix gave it to a tail
+    fresh = []
+    if isinstance(second, ast.Name):
+        for node in ast.walk(ft):
+            if not isinstance(node, ast.If):
+                continue
+            reb = [a for a in node.body if isinstance(a, ast.Assign) and len(a.targets) == 1 and isinstance(a.targets[0], ast.Name)
+                   and a.targets[0].id == second.id and isinstance(a.value, ast.Name) and a.value.id in counters]
+            if not reb:
+                continue
+            cn = reb[0].value.id
+            one_ = lambda x: isinstance(x, ast.Constant) and x.value == 1
+            nm_ = lambda x: isinstance(x, ast.Name) and x.id == cn
+            adv = [a for a in node.body if (isinstance(a, ast.AugAssign) and isinstance(a.op, ast.Add) and nm_(a.target) and one_(a.value))
+                   or (isinstance(a, ast.Assign) and len(a.targets) == 1 and nm_(a.targets[0]) and isinstance(a.value, ast.BinOp) and isinstance(a.value.op, ast.Add)
+                       and ((nm_(a.value.left) and one_(a.value.right)) or (one_(a.value.left) and nm_(a.value.right))))]
+            t_ = node.test
+            taken = isinstance(t_, ast.Call) and isinstance(t_.func, ast.Attribute) and t_.func.attr == "any" and not t_.args and any(
+                isinstance(c, ast.Compare) and len(c.ops) == 1 and isinstance(c.ops[0], ast.Eq) and "store_idx1" in src(c)
+                and any(isinstance(x, ast.Name) and x.id == second.id for x in [c.left] + c.comparators) for c in ast.walk(t_.func.value))
+            # ... of the table add_chain_suffix relabelled the tail in (its third argument)
+            sufc = [c for c in ast.walk(ft) if isinstance(c, ast.Call) and src(c.func).split(".")[-1] == "add_chain_suffix" and len(c.args) >= 3]
+            tabs = {src(c.args[2]) for c in sufc}
+            taken = taken and len(tabs) == 1 and any(isinstance(c, ast.Compare) and isinstance(c.left, ast.Subscript) and src(c.left.value) in tabs
+                                                      for c in ast.walk(t_))
+            fresh.append((node, bool(adv), taken))
+    ctx.count(1, {"rebinding of class_max[1] to a fresh number": [(src(n.test)[:70], "counter advanced" if a else "counter NOT advanced", "under `number taken`" if t else "other test")
+                                                                   for n, a, t in fresh]})
+    if tail_is_own and head_is_cmax1 and is_own and fresh:
+        if len(fresh) != 1 or not fresh[0][2] or fresh[0][0].lineno > pre[0].lineno:
+            raise Unsupported("two-sided connection: class_max[1] is rebound under a test this rule does not follow", fresh[0][0])
+        if not fresh[0][1]:
+            ctx.finding(qt, "two-sided connection: fresh number of the cut-off head", "the cut-off head is given the chain counter's current value but the counter "
+                        "is not advanced: the next finished chain receives the same object number", fresh[0][0], mt)
+        return
+    if tail_is_own and head_is_cmax1 and is_own:
+        ctx.finding(qt, "two-sided connection: numbers of the cut-off pieces", "when the finished chain is hung behind a particle in the middle of one chain "
+                    "(add_chain_suffix cuts that chain's tail off) and at the same connection put in front of a particle in the middle of another "
+                    "(add_chain_prefix cuts that chain's head off), both cut-off pieces receive the finished chain's former object number: the tail through "
+                    "`current_class` in add_chain_suffix, the head through class_max[1] = counter - 1 -- one object with two particles of order number 1",
+                    pre[0], mt)
+    elif not (tail_is_own and head_is_cmax1) or not is_own:
+        # a different numbering scheme for the cut-off pieces: whether they can collide is not decided by this rule
+        raise Unsupported("two-sided connection: the numbers given to a cut-off tail / head are assigned in a way this rule does not follow", pre[0])
+
+
+def o1910(ctx):
+    """add_chain_suffix, tail cut: the cut-off tail is a chain of its own whose particles keep their ORDER -- the new order numbers are the old
+    ones minus the order number of the particle the new chain is hung behind.  Numbers dealt out by table row position follow the order in which
+    the rows were stored, which is not chain order once add_chain_prefix has hung an earlier-stored chain behind a later-stored one"""
+    q = RB + "add_chain_suffix"
+    m, fn = ctx.prog.func(q)
+    ctx.touched(q)
+    it = Interp(ctx.prog, assume=assume_map({"chain_max_order != order_id": True, "previous_dist <= current_dist": False}))
+    chain, traced = opf("chain_df", "ch:"), opf("traced_df", "tr:")
+    it.run(q, [chain, Obj("cryomotl.Motl", {"df": opf("mdf", "m:")}), traced, P("subtomo_pos"), P("current_dist")], {})
+    rel = [e for e in it.events if e.kind == "store" and e.fn == q and e.extra.get("frame") is traced and e.extra.get("names") == ["object_id"]
+           and e.extra.get("mask") is not None]
+    if len(rel) != 1:
+        raise Unsupported("add_chain_suffix: relabelling of the cut-off tail not recognised", fn)
+    # the order number of the particle the chain is hung behind: the term the tail's mask compares the order column with
+    cmps = [n for n in tm.walk(rel[0].extra["mask"]) if n.op in ("lt", "le") and any(a == sym("tr:geom2") for a in n.args)]
+    if len(cmps) != 1:
+        raise Unsupported("add_chain_suffix: order test of the cut-off tail not recognised", rel[0].node)
+    anchor = [a for a in cmps[0].args if a != sym("tr:geom2")][0]
+    ren = [e for e in it.events if e.kind == "store" and e.fn == q and e.extra.get("frame") is traced and e.extra.get("names") == ["geom2"]]
+    ctx.count(1, {"order number of the particle hung behind": tm.show(anchor)[:90], "renumbering stores": len(ren)})
+    if not ren:
+        ctx.finding(q, "order numbers of the cut-off tail", "the tail that is cut off keeps the order numbers it had in the old chain: they do not start at 1",
+                    rel[0].node, m)
+        return
+    if len(ren) != 1 or ren[0].extra.get("mask") is None:
+        raise Unsupported("add_chain_suffix: renumbering of the cut-off tail not recognised", ren[0].node)
+    v = to_term(ren[0].args[2])
+    ctx.count(1, {"new order numbers of the tail": tm.show(v)[:160]})
+    positional = tm.contains(v, lambda n: n.op == "sym" and str(n.args[0]).startswith("idx")) if hasattr(tm, "contains") else False
+    if positional and not tm.has_sym(v, "tr:geom2"):
+        ctx.finding(q, "order numbers of the cut-off tail", "the cut-off tail is renumbered by table row position (1, 2, ... in the order its rows lie in the traced "
+                    "table): the rows of one chain lie in the order its pieces were stored, not in chain order -- after add_chain_prefix hung an earlier-stored "
+                    "chain behind a later-stored one the tail comes out in the wrong order and its links no longer join exit site to entry site; the new "
+                    "numbers must be the old ones minus the order number of the particle the new chain is hung behind", ren[0].node, m)
+        return
+    ctx.count(1)
+    if v.op == "sub" and v.args[0].op == "sel" and v.args[0].args[0] == sym("tr:geom2") and v.args[1] == anchor:
+        return
+    if v.op == "sub" and v.args[0].op == "sel" and v.args[0].args[0] == sym("tr:geom2"):
+        ctx.finding(q, "order numbers of the cut-off tail", f"the cut-off tail's order numbers are shifted by {tm.show(v.args[1])[:80]}, not by the order number of "
+                    "the particle the new chain is hung behind: they do not start at 1", ren[0].node, m)
+        return
+    raise Unsupported("add_chain_suffix: the new order numbers of the cut-off tail are computed in a way this rule does not follow", ren[0].node)
+
+
 def _obligations():
     return [
         Obligation("O19.20", "accessors of the particle list: get_coordinates = (x,y,z) + shifts, get_angles / get_rotations = the stored zxz angles, fill stores values as given (shared with C05)", _c05.accessors, floor=20),
         Obligation("O19.8", "connection arbitration: both ends to the same chain -> only the closer connection is kept (decision table over the block's tests)", o198, floor=30),
         Obligation("O19.6", "per-tomogram subsets: get_motl_subset selects exactly feature == value (shared with C08)", _c08.o81, floor=10),
         Obligation("O19.7", "entry / exit sites: get_coordinates = (x,y,z) + shifts, nothing else (shared with C05)", _c05.o51, floor=9),
+        Obligation("O19.9", "two-sided connection with a tail cut and a head cut: the two cut-off pieces get different object numbers", o199, floor=3),
+        Obligation("O19.10", "add_chain_suffix, tail cut: the cut-off tail keeps its order (old order numbers minus that of the particle hung behind)", o1910, floor=3),
         Obligation("O19.5", "two-sided connection: the order offset for add_chain_prefix is read after add_chain_suffix renumbered the chain", o195, floor=1),
-        Obligation("O19.1", "get_nn_dist: radius = max_distance, sorted, active filter, strict > min_distance, same masks, element 0", o191, floor=5),
+        Obligation("O19.1", "get_nn_dist: radius = max_distance, distances returned, active filter, strict > min_distance, same masks, same element of index and distance", o191, floor=4),
         Obligation("O19.2", "add_chain_suffix: order offset keyed by the class the appended chain receives (both paths)", o192, floor=6),
         Obligation("O19.4", "add_chain_prefix: the link distance is recorded on every merging path", o194, floor=4),
         Obligation("O19.3", "trace_chains: per-tomogram state, flags cleared on append, guards, counter discipline, forward search wiring", o193, floor=12),
